@@ -12,7 +12,8 @@
 #include "Exception.c"
 #include "hcommon.h"
 
-enum { PSKIP, PTICK, PSEQ, PTHROW, PTRY, PCALL };
+enum { PSKIP, PTICK, PSEQ, PTHROW, PTRY, PCALL, PTHROWF, PRAISE };
+static int uses_signals;
 typedef struct Node { int tag, n, m, mask; struct Node *a, *b; } Node;
 
 #include "exn_objs.h"
@@ -32,10 +33,16 @@ static Node* parse(void) {
     case 't': n->tag = PTICK; n->n = atoi(t+1); break;
     case ';': n->tag = PSEQ; n->a = parse(); n->b = parse(); break;
     case '!': n->tag = PTHROW; n->n = atoi(t+1); n->m = strchr(t, ',') ? atoi(strchr(t, ',')+1) : 0;
-              if (n->n / 10 >= NKIND || n->n % 10 >= NVAR) { P("BADCASE"); fflush(OUT); _exit(0); }
+              if (n->n / 10 >= 4 || n->n % 10 >= NVAR)   /* the compiled filters know kinds 0..3 */ { P("BADCASE"); fflush(OUT); _exit(0); }
               break;
+    case 'S': n->tag = PRAISE; n->n = atoi(t+1); uses_signals = 1; break;
+    case 'F': n->tag = PTHROWF; n->n = atoi(t+1); n->m = strchr(t, ',') ? atoi(strchr(t, ',')+1) : 0;
+              if (n->n / 10 >= 4 || n->n % 10 >= NVAR) { P("BADCASE"); fflush(OUT); _exit(0); }
+              n->a = parse(); break;
     case 'T': n->tag = PTRY;
-              for (char* c = t+1; *c; ) { int o = atoi(c); n->mask |= 1 << ((o / 10) & 3);
+              for (char* c = t+1; *c; ) { int o = atoi(c);
+                                          if (o / 10 >= 4) { P("BADCASE"); fflush(OUT); _exit(0); }
+                                          n->mask |= 1 << ((o / 10) & 3);
                                           while (*c && *c != '.') c++; if (*c == '.') c++; }
               n->a = parse(); n->b = parse(); break;
     case 'C': n->tag = PCALL; n->a = parse(); break;
@@ -85,6 +92,7 @@ static void run_try(Node* n) {
 }
 
 static void run_call(Node* n) { run(n->a); }
+static void run_v(void* n) { run((Node*)n); }
 
 static void run(Node* n) {
   switch (n->tag) {
@@ -92,6 +100,8 @@ static void run(Node* n) {
     case PTICK: P("t%d@%zu ", n->n, len(current(Exception))); fflush(OUT); break;
     case PSEQ: run(n->a); run(n->b); break;
     case PTHROW: THROW(n->n, n->m); break;
+    case PTHROWF: THROWF(n->n, n->m, run_v, n->a); break;
+    case PRAISE: RAISE(n->n); break;
     case PTRY: run_try(n); break;
     case PCALL: run_call(n); break;
   }
@@ -106,8 +116,10 @@ static void do_case(char* line) {
   setup_objs(rep);
   Node* root = parse();
   if (tpos != ntok) { P("BADCASE"); return; }
+  if (uses_signals) exception_signals();
   fflush(OUT);
   dup2(fileno(OUT), 2);                 /* the library's diagnostic goes into the transcript */
+  atexit(exn_at_exit);
   run(root);
   P("N@%zu", len(current(Exception)));
 }
